@@ -1,6 +1,7 @@
 //! Correspondence harness: generates cases from (seed, case number), runs the real crate in-process
 //! and prints one self-contained case per line for the Lean judge.
 mod c02;
+mod c09;
 mod c10;
 mod c12;
 mod c13;
@@ -42,6 +43,8 @@ fn main() {
             "H11" => hist::case(&mut rng, &hist::Weights { apply_func: 1, compose0: 4, compose1: 4, elim: 8, reduce: 0, arith_tree: 2, arith_aff: 0, neg: 0, faults: true, partial16: 3, max_steps: 6 }, "C11"),
             "C02" => c02::case(&mut rng, false),
             "C02T" => c02::case(&mut rng, true),
+            "C09" => c09::case(&mut rng, false),
+            "C09T" => c09::case(&mut rng, true),
             "C10" => c10::case(&mut rng),
             "C15" => c10::cleanup_case(&mut rng),
             "C14" => c14::case(&mut rng),
